@@ -49,7 +49,14 @@ def bounded_tasks():
                 seconds=time.time() - t2, backend="enumeration")
         if sl:
             r4.replay, r4.witness = sl, sl["input"]
-        return [r, r2, r3, r4]
+        t3 = time.time()
+        pf = c10.page_files()
+        r5 = OR(id=f"{PROP}.Bd.site.page_files_and_procedure_ids", status=REFUTED if pf else PROVED, kind="Bd", role="bounded", target="ford.main (whole site)",
+                desc="source files whose names differ only after the last dot or by directory, operator interfaces with dots, a generic interface with three interface bodies: one "
+                     "file per page object, every link live, one id per specific procedure", bound="1 project", cases=1, seconds=time.time() - t3, backend="enumeration")
+        if pf:
+            r5.replay, r5.witness = pf, pf["input"]
+        return [r, r2, r3, r4, r5]
     return [Task(f"{PROP}.Bd", PROP, "bounded", run)]
 
 
@@ -62,6 +69,26 @@ def _anchor():
 
 
 _anchor.__name__ = "anchor"
+
+
+def _object_page():
+    from bounded import c10
+    c = names.object_page(PROP)
+    c.search_fn = c10.page_files
+    return c
+
+
+_object_page.__name__ = "object_page"
+
+
+def _is_interface_procedure():
+    from bounded import c10
+    c = names.is_interface_procedure(PROP)
+    c.search_fn = c10.page_files
+    return c
+
+
+_is_interface_procedure.__name__ = "is_interface_procedure"
 
 
 def src_copy_task():
@@ -137,7 +164,7 @@ def link_copy_agreement(var, dest):
 
 def build(tier, seed):
     set_tier(tier)
-    tasks = [a_task(PROP, _get_name), a_task(PROP, _anchor), src_copy_task()] + bounded_tasks()
+    tasks = [a_task(PROP, _get_name), a_task(PROP, _anchor), a_task(PROP, _object_page), a_task(PROP, _is_interface_procedure), src_copy_task()] + bounded_tasks()
     meta = {
         "trusted_base": TRUSTED_BASE,
         "assumptions": PYVC_ASSUMPTIONS + [
@@ -148,7 +175,7 @@ def build(tier, seed):
             "items[x] = numbered(stem(x), n_x), 1 <= n_x <= counts[dir(x)][stem(x)], equal (dir, stem) => different n; counters >= 1; the per-directory "
             "counter dicts are distinct objects",
         ],
-        "functions_under_contract": fn_meta([("ford.sourceform", "NameSelector.get_name", None)]) +
+        "functions_under_contract": fn_meta([("ford.sourceform", "NameSelector.get_name", None), ("ford.sourceform", "FortranBase.anchor", None), ("ford.output", "DocPage.object_page", None), ("ford.sourceform", "FortranProcedure.is_interface_procedure", None)]) +
         [{"call_site": "ford.output.Documentation.writeout: shutil.copy(src.path, out_dir/'src'/src.name)"}],
         "unverified_surroundings": ["anchor ids inside one page (urllib.parse.quote assumed injective)", "DocPage.outfile (C09)", "templates that hard-code src/<name>"],
         "explanation": "get_name is proved idempotent and injective per output directory for every NameSelector state satisfying its representation invariant, "
